@@ -19,7 +19,7 @@ func checkC12(c *Ctx) error {
 	c.Level = "other"
 	maxK, maxLen := 3, 4
 	if c.Thorough() {
-		maxK, maxLen = 4, 8
+		maxK, maxLen = 4, 6
 	} else if c.KernelSolver == "" {
 		c.KernelSolver = "race:cvc5"
 	}
